@@ -50,6 +50,11 @@ def run(chk):
     chk.trust('frozen id-contributing lists in spec/tables_v21.json', 'SHA-1 collision freedom for "different values give different ids"')
     for c in (K.choose_one_hash_contract(), K.observable_init_contract()):
         chk.prove(c); chk.canary(c)
+    # functions the identifier depends on indirectly, under the contracts they have in their own properties: the text a timestamp value is written as (C15) and the
+    # cleaner that decides the spelling of hash names entering the canonical JSON (C04: no state across calls, the caller's spelling per call)
+    from contracts import cleaners as KCL
+    for c in (KT.format_datetime_contract(True), KCL.hashes_clean_contract()):
+        chk.prove(c); chk.canary(c)
     for k in ('str', 'datetime', 'stixdatetime'): chk.prove(KT.parse_contract(k))        # timestamp values among the contributing properties: one instant, one id, whatever kind of value carried it
     for ob in purity_obligations(SRC_ROOT, ['stix2/base.py::_Observable._generate_id', 'stix2/base.py::_choose_one_hash', 'stix2/base.py::_make_json_serializable',
                                             'stix2/canonicalization/Canonicalize.py::canonicalize', 'stix2/canonicalization/NumberToJson.py::convert2Es6Format'], allow=('_JSON_ESCAPE_MAP',)):
